@@ -51,7 +51,18 @@ pub fn ev_equal<S: Source>(s: &mut S) {
 }
 proof!(#[kani::unwind(3)] c08_ev_equal => ev_equal);
 
-fn pow2(e: u32) -> f64 {
+/// Exact model of `f64::powi` for base 2 (llvm.powi / __powidf2 squares exactly on powers of
+/// two); any other base is unconstrained.
+#[cfg(kani)]
+pub fn powi_model(base: f64, exponent: i32) -> f64 {
+    if base == 2.0 && exponent >= 0 {
+        pow2(exponent as u32)
+    } else {
+        kani::any()
+    }
+}
+
+pub fn pow2(e: u32) -> f64 {
     if e <= 1023 {
         f64::from_bits(((1023 + e as u64) << 52) as u64)
     } else {
@@ -82,7 +93,9 @@ pub fn ev_hex<S: Source>(s: &mut S) {
     witness!(has_exponent && exponent < 64 && mantissa > (u64::MAX >> exponent), "mantissa * 2^e beyond u64 range");
     claim!(s, value.to_bits() == expected.to_bits(), "hex literal value is mantissa * 2^exponent");
 }
-proof!(c08_ev_hex => ev_hex);
+proof!(#[kani::unwind(34)] #[kani::stub(f64::powi, powi_model)] c08_ev_hex => ev_hex);
+// same body with every default Kani check (overflow, unwrap, index): panic-freedom for C12
+proof!(#[kani::unwind(34)] #[kani::stub(f64::powi, powi_model)] c12_hex_no_panic => ev_hex);
 
 /// `BinaryNumber::compute_value` and `DecimalNumber::compute_value` return the stored value.
 pub fn ev_bin_dec<S: Source>(s: &mut S) {
@@ -97,4 +110,4 @@ pub fn ev_bin_dec<S: Source>(s: &mut S) {
     claim!(s, via_enum.to_bits() == float.to_bits(), "NumberExpression dispatch keeps the value");
     witness!(float.is_nan(), "nan payload");
 }
-proof!(c08_ev_bin_dec => ev_bin_dec);
+proof!(#[kani::unwind(34)] c08_ev_bin_dec => ev_bin_dec);
